@@ -47,7 +47,7 @@ WORLD = ["world_native.go"]
 
 def c07_units(tier):
     n = "3" if tier == "quick" else "4"
-    stub = {"loop": 32, "rec": 4, "stubs": "hasCycle=zzHasCycleSpec"}
+    stub = {"loop": 32, "rec": 4, "stubs": "hasCycle=zzHasCycleSpec", "only": "C07/"}
     return [
         Unit("hasCycle-vs-spec", WORLD + ["c07.go"], "zzC07_HasCycle_N" + n, {"loop": 24, "rec": int(n) + 1}, bounds="Deps over %s slot ids, any edge relation (cyclic or not), from/to arbitrary ids; recursion unwound to depth %s+1 with unwinding assertions" % (n, n)),
         Unit("link-step", WORLD + ["c07.go"], "zzC07_LinkStep", stub, note="hasCycle replaced by its reachability summary (checked by hasCycle-vs-spec)", bounds="store of 3 items (any kinds/states), edges = any acyclic same-kind relation between live items (symbolic rank witness), 1 tombstone; request sequence|sequence rm with arbitrary from/to ids (live, pruned, unknown, equal)"),
@@ -106,6 +106,8 @@ def c15_units(tier):
     return [
         Unit("progress-acyclic", HS14, "zzC15_ProgressAcyclic_N4", {"loop": 24}, bounds="N=4 items obeying I1-I5 whose effective waits-for relation has a rank function; isReady/areEpicDepsComplete/isEpicComplete real"),
         Unit("progress-any", HS14, "zzC15_ProgressAny_N4", {"loop": 24}, bounds="N=4 items obeying only what ergo enforces (I1-I5: cycles checked per kind)"),
+        Unit("step-sequence", HS14, "zzC07_LinkStep", dict(STUB, only="C15/"), bounds="store of 3 items in ANY states (finished, reopened, claimed ...), acyclic edges; one sequence edge"),
+        Unit("step-chain", HS14, "zzC07_Chain", dict(STUB, only="C15/"), bounds="store of 3 items; sequence A B C"),
     ]
 
 
@@ -162,3 +164,21 @@ reg("C05", c05_units,
     "bounded symbolic model checking: the real compactEvents is run on an arbitrary store satisfying the invariants replay establishes (I1-I7), its output is replayed by the real replayEvents from an empty graph, and every observable of every item (state, claimant, claim time, title, body, epic, kind, uuid, created/updated, results with evidence in order, ready/blocked, edges, claim order) is compared.",
     ["time.Format/Parse(RFC3339Nano) modelled as an injective UF pair with parse(format(t)) = t", "pre-state invariants I6/I7 (Meta consistent with a CLI-written log under a monotonic clock) are assumed; legacy-format and torn-tail logs are outside this unit",
      "json boxes keyed by the struct tags of the current source"])
+
+
+# ---------------------------------------------------------------- C11
+def c11_units(tier):
+    hs = ["c10.go", "c11.go"]
+    us = [
+        Unit("validate-vs-spec", hs, "zzC11_Validate_T2", {"loop": 40, "rec": 3}, bounds="plan documents with <=2 tasks, <=2 after entries each, every title/body present or absent, blank or not, equal or distinct; hasPlanCycle's recursion unwound to depth 3 with unwinding assertions"),
+        Unit("run-plan", hs, "zzC11_Run_T2", {"loop": 40, "rec": 3, "stubs": "hasCycle=zzHasCycleSpec,hasPlanCycle=zzPlanCycleSpec", "only": "C11/,C16/"}, note="hasCycle / hasPlanCycle replaced by their summaries (checked by C07 hasCycle-vs-spec and by validate-vs-spec)", bounds="store of 2 items + 1 pruned id; plan of <=2 tasks with <=1 after entry each; parse error or not; lock busy or free"),
+    ]
+    if tier == "thorough":
+        us.append(Unit("validate-vs-spec-t3", hs, "zzC11_Validate_T3", {"loop": 40, "rec": 4, "_wall": 7000}, bounds="<=3 tasks, <=2 after entries each"))
+        us.append(Unit("run-plan-a2", hs, "zzC11_Run_T2A2", {"loop": 40, "rec": 3, "stubs": "hasCycle=zzHasCycleSpec,hasPlanCycle=zzPlanCycleSpec", "only": "C11/,C16/", "_wall": 7000}, bounds="plan of <=2 tasks with <=2 after entries each"))
+    return us
+
+
+reg("C11", c11_units,
+    "bounded symbolic model checking: PlanInput.Validate (with the real hasPlanCycle) is compared with the statement's validity written as a formula; RunPlan is run through the world on an arbitrary store and the replayed result is compared with the document (one epic, one todo unclaimed task per entry inside it, identical titles/bodies, edges exactly the after relation, nothing old altered) and a rejected document writes nothing.",
+    ["L1 world stubs; ParsePlanInput yields an arbitrary PlanInput or a parse error (json decoding itself is assumed)", "crash atomicity of the rewrite is C03/C04's subject"])
